@@ -193,6 +193,8 @@ func seedOf() int {
 	return s
 }
 
+var noEvidence bool
+
 func runProperty(prop, tier string, workers int) int {
 	t0 := time.Now()
 	var specs []*HarnessSpec
@@ -458,8 +460,10 @@ func runProperty(prop, tier string, workers int) int {
 		"assumptions": assumptionsFor(prop), "wall_s": round2(time.Since(t0).Seconds()), "violations": violations,
 	}
 	eb, _ := json.MarshalIndent(ev, "", " ")
-	os.MkdirAll(filepath.Join(verifDir, "evidence"), 0755)
-	os.WriteFile(filepath.Join(verifDir, "evidence", prop+".json"), eb, 0644)
+	if !noEvidence {
+		os.MkdirAll(filepath.Join(verifDir, "evidence"), 0755)
+		os.WriteFile(filepath.Join(verifDir, "evidence", prop+".json"), eb, 0644)
+	}
 	fmt.Printf("property=%s tier=%s items=%d paths=%d instrs=%d queries=%d validated=%d violations=%d inconclusive=%d wall=%.1fs exit=%d\n",
 		prop, tier, len(items), totalPaths, totalInstrs, solver.Queries, validated, violations, len(inconclusive), time.Since(t0).Seconds(), exit)
 	return exit
@@ -516,4 +520,17 @@ func replayFile(path string) int {
 	return 0
 }
 
-func selftest() int { return 0 }
+// selftest: translator validation on fixed differential harnesses (engine vs native build).
+func selftest() int {
+	noEvidence = true
+	rc := 0
+	for _, p := range []string{"DBG", "DBG2"} {
+		if c := runProperty(p, "quick", 8); c != 0 {
+			rc = c
+		}
+	}
+	if rc == 0 {
+		fmt.Println("selftest ok")
+	}
+	return rc
+}
